@@ -89,12 +89,19 @@ func goElemType(t *ref.Type) reflect.Type {
 
 // FieldTag renders the frugal struct tag of a field.
 func FieldTag(f *ref.Field) string {
-	s := fmt.Sprintf("%d,%s,%s", f.ID, f.Req, f.Type.Annot())
+	ann := f.Type.Annot()
+	if TypelessOptions && f.NoCopy && (f.Type.Kind == ref.KString || f.Type.Kind == ref.KBinary) {
+		ann = "" // "id,req,,nocopy": the type is derived from the Go type, the option still applies
+	}
+	s := fmt.Sprintf("%d,%s,%s", f.ID, f.Req, ann)
 	if f.NoCopy {
 		s += ",nocopy"
 	}
 	return s
 }
+
+// TypelessOptions makes FieldTag leave out the type descriptor of nocopy string/binary fields.
+var TypelessOptions bool
 
 // Salt, when non-empty, is added as an extra (ignored) tag key to every struct
 // built, which makes the resulting Go types distinct from all earlier ones: a
